@@ -70,7 +70,8 @@ NotaryOn(st) == Has(st, "notary") /\ ValOf(st, "notary") = "true"
 \* common.TryPurgeVotes: a ballot whose last vote is at most 20 blocks old blocks the switch
 \* ballots values: "empty", "stale", "many" (8 stale), "edge21" (21 blocks old) do not block;
 \* "fresh", "mixed", "manyfresh" (7 stale + 1 fresh), "edge20" (exactly 20 blocks old) do
-FreshBallots == {"fresh", "mixed", "manyfresh", "edge20"}
+\* "mixedrev" (fresh, stale) and "freshmid" (stale, fresh, stale): the fresh ballot is not the last of the list
+FreshBallots == {"fresh", "mixed", "mixedrev", "freshmid", "manyfresh", "edge20"}
 PendingVote(k, st) == k \in PurgeKinds /\ NotaryOn(st) /\ Has(st, "ballots") /\ ValOf(st, "ballots") \in FreshBallots
 
 SwitchToNotary(k, st) ==
